@@ -15,6 +15,7 @@ uses the real coerce_node_error), with the failing calls and the kind of excepti
 Case split (environment): XH_ESHAPE (chain3 | fork3 | join3), XH_EREG (0 | 1).
 """
 import os
+import sys
 
 import world as W
 from world import begin, ok
@@ -24,6 +25,7 @@ import uberjob  # noqa: E402
 
 ESHAPE = os.environ.get("XH_ESHAPE", "chain3")
 EREG = os.environ.get("XH_EREG", "0") == "1"
+SRC_DIR = os.environ.get("VERIF_SRC", "/repo/src")
 HAND = os.environ.get("XH_EHAND", "0") == "1"  # a transform_physical hook inserts a hand-built graph.Call (stack_frame=None) that fails
 BADREPR = os.environ.get("XH_EBADREPR", "0") == "1"  # the failing callables have a __repr__ that raises
 EDGES = {"chain3": [(0, 1), (1, 2)], "fork3": [(0, 1), (0, 2)], "join3": [(0, 2), (1, 2)], "indep3": []}[ESHAPE]
@@ -72,7 +74,15 @@ def c06_error(f0: bool, f1: bool, f2: bool, base: bool, out_sel: int, sf: int) -
                     return f(*a)
 
                 def __repr__(self):
-                    raise RuntimeError("repr of an unopened loader")
+                    # raises for uberjob (and anybody else) -- but not for CrossHair's own diagnostics, which also repr() values
+                    # raises whenever the harness' run is in progress (uberjob formatting a node) -- not when CrossHair itself reprs
+                    # values after the call (its state reconciliation), which would abort the analysis instead of failing the run
+                    fr = sys._getframe(1)
+                    while fr is not None:
+                        if fr.f_code.co_name == "c06_error":
+                            raise RuntimeError("repr of an unopened loader")
+                        fr = fr.f_back
+                    return "<Loader>"
 
             return Loader()
         return f
